@@ -127,7 +127,7 @@ def finish(pid, a, mod, results, inconclusive, t0, env):
     classes = set(); states = collections.defaultdict(set); statecount = collections.Counter()
     fails = []; failkeys = collections.Counter(); samples = []
     exhaustive = collections.Counter(); notes = collections.Counter(); anchors = collections.defaultdict(set)
-    anchor_lines = {}; cases = 0; s1 = collections.Counter(); selftest = None; crysp_path = None
+    anchor_lines = {}; cases = 0; sancases = 0; s1 = collections.Counter(); selftest = None; crysp_path = None
     for r in results:
         if r.get('status') == 'selftest-failed':
             inconclusive.append('oracle self-test failed: %s' % r.get('selftest'))
@@ -142,11 +142,15 @@ def finish(pid, a, mod, results, inconclusive, t0, env):
             statecount[k] = max(statecount[k], v)
         fails.extend(r['fails']); failkeys.update(r['failkeys'])
         samples.extend(r['samples'])
-        exhaustive.update(r.get('exhaustive', {})); notes.update(r.get('notes', {}))
+        if not r.get('san'):
+            exhaustive.update(r.get('exhaustive', {})); notes.update(r.get('notes', {}))
         for k, v in r.get('anchors', {}).items():
             anchors[k].update(v)
         anchor_lines.update(r.get('anchor_lines', {}))
-        cases += r['cases']
+        if r.get('san'):
+            sancases += r['cases']
+        else:
+            cases += r['cases']
         s1.update(r.get('s1', {}))
     head, diffid = repo_ident()
     # -- inconclusive conditions -------------------------------------------------------
@@ -209,6 +213,7 @@ def finish(pid, a, mod, results, inconclusive, t0, env):
             'rule': getattr(mod, 'RULE', ''),
             'samples': pick_samples(samples),
             'cases': cases,
+            'cases_reexecuted_under_S1_invariants': sancases,
             'monitor_evaluations': dict(sorted(mon.items())),
             'monitor_failures': dict(sorted(monfail.items())),
             'anchors_executed_lines': {k: [len(anchors[k]), anchor_lines.get(k, 0)] for k in sorted(anchors)},
@@ -227,6 +232,8 @@ def finish(pid, a, mod, results, inconclusive, t0, env):
         'wall_s': round(time.time() - t0, 2),
         'violations': len(violations),
     }
+    if 'programs' in notes:
+        ev['coverage']['programs'] = notes['programs']
     if inconclusive:
         ev['coverage']['inconclusive'] = inconclusive
     os.makedirs(os.path.join(HERE, 'evidence'), exist_ok=True)
